@@ -75,156 +75,194 @@ func wasiCall(mod api.Module, params []uint64, n int) bool {
 //@   ensures r0 == (uint64(offset)+uint64(len(v)) <= memBytes(m))
 //@   modifies nothing
 
-// ---- every WASI function: no Go run-time panic for any argument values (safety sweep: each
+// ---- every WASI function: no Go run-time panic for any argument values (safety sweep incl. the bound
+// 'no single allocation larger than 64 x guest memory + 1 MiB'; each
 // obligation that discharges on the pinned tree is claimed individually, see /verif/baseline) ----
 
 //@ func argsGetFn(ctx context.Context, mod api.Module, params []uint64) experimentalsys.Errno
 //@   requires wasiCall(mod, params, 2)
 //@   sweep
+//@   alloc-bound 64*memBytes(mod.Memory()) + 1<<20
 
 //@ func argsSizesGetFn(ctx context.Context, mod api.Module, params []uint64) experimentalsys.Errno
 //@   requires wasiCall(mod, params, 2)
 //@   sweep
+//@   alloc-bound 64*memBytes(mod.Memory()) + 1<<20
 
 //@ func clockResGetFn(ctx context.Context, mod api.Module, params []uint64) experimentalsys.Errno
 //@   requires wasiCall(mod, params, 2)
 //@   sweep
+//@   alloc-bound 64*memBytes(mod.Memory()) + 1<<20
 
 //@ func clockTimeGetFn(ctx context.Context, mod api.Module, params []uint64) experimentalsys.Errno
 //@   requires wasiCall(mod, params, 3)
 //@   sweep
+//@   alloc-bound 64*memBytes(mod.Memory()) + 1<<20
 
 //@ func environGetFn(ctx context.Context, mod api.Module, params []uint64) experimentalsys.Errno
 //@   requires wasiCall(mod, params, 2)
 //@   sweep
+//@   alloc-bound 64*memBytes(mod.Memory()) + 1<<20
 
 //@ func environSizesGetFn(ctx context.Context, mod api.Module, params []uint64) experimentalsys.Errno
 //@   requires wasiCall(mod, params, 2)
 //@   sweep
+//@   alloc-bound 64*memBytes(mod.Memory()) + 1<<20
 
 //@ func fdAdviseFn(ctx context.Context, mod api.Module, params []uint64) experimentalsys.Errno
 //@   requires wasiCall(mod, params, 4)
 //@   sweep
+//@   alloc-bound 64*memBytes(mod.Memory()) + 1<<20
 
 //@ func fdAllocateFn(ctx context.Context, mod api.Module, params []uint64) experimentalsys.Errno
 //@   requires wasiCall(mod, params, 3)
 //@   sweep
+//@   alloc-bound 64*memBytes(mod.Memory()) + 1<<20
 
 //@ func fdCloseFn(ctx context.Context, mod api.Module, params []uint64) experimentalsys.Errno
 //@   requires wasiCall(mod, params, 1)
 //@   sweep
+//@   alloc-bound 64*memBytes(mod.Memory()) + 1<<20
 
 //@ func fdDatasyncFn(ctx context.Context, mod api.Module, params []uint64) experimentalsys.Errno
 //@   requires wasiCall(mod, params, 1)
 //@   sweep
+//@   alloc-bound 64*memBytes(mod.Memory()) + 1<<20
 
 //@ func fdFdstatGetFn(ctx context.Context, mod api.Module, params []uint64) experimentalsys.Errno
 //@   requires wasiCall(mod, params, 2)
 //@   sweep
+//@   alloc-bound 64*memBytes(mod.Memory()) + 1<<20
 
 //@ func fdFdstatSetFlagsFn(ctx context.Context, mod api.Module, params []uint64) experimentalsys.Errno
 //@   requires wasiCall(mod, params, 2)
 //@   sweep
+//@   alloc-bound 64*memBytes(mod.Memory()) + 1<<20
 
 //@ func fdFilestatGetFn(ctx context.Context, mod api.Module, params []uint64) experimentalsys.Errno
 //@   requires wasiCall(mod, params, 2)
 //@   sweep
+//@   alloc-bound 64*memBytes(mod.Memory()) + 1<<20
 
 //@ func fdFilestatSetSizeFn(ctx context.Context, mod api.Module, params []uint64) experimentalsys.Errno
 //@   requires wasiCall(mod, params, 2)
 //@   sweep
+//@   alloc-bound 64*memBytes(mod.Memory()) + 1<<20
 
 //@ func fdFilestatSetTimesFn(ctx context.Context, mod api.Module, params []uint64) experimentalsys.Errno
 //@   requires wasiCall(mod, params, 4)
 //@   sweep
+//@   alloc-bound 64*memBytes(mod.Memory()) + 1<<20
 
 //@ func fdPreadFn(ctx context.Context, mod api.Module, params []uint64) experimentalsys.Errno
 //@   requires wasiCall(mod, params, 5)
 //@   sweep
+//@   alloc-bound 64*memBytes(mod.Memory()) + 1<<20
 
 //@ func fdPrestatDirNameFn(ctx context.Context, mod api.Module, params []uint64) experimentalsys.Errno
 //@   requires wasiCall(mod, params, 3)
 //@   sweep
+//@   alloc-bound 64*memBytes(mod.Memory()) + 1<<20
 
 //@ func fdPrestatGetFn(ctx context.Context, mod api.Module, params []uint64) experimentalsys.Errno
 //@   requires wasiCall(mod, params, 2)
 //@   sweep
+//@   alloc-bound 64*memBytes(mod.Memory()) + 1<<20
 
 //@ func fdPwriteFn(ctx context.Context, mod api.Module, params []uint64) experimentalsys.Errno
 //@   requires wasiCall(mod, params, 5)
 //@   sweep
+//@   alloc-bound 64*memBytes(mod.Memory()) + 1<<20
 
 //@ func fdReadFn(ctx context.Context, mod api.Module, params []uint64) experimentalsys.Errno
 //@   requires wasiCall(mod, params, 4)
 //@   sweep
+//@   alloc-bound 64*memBytes(mod.Memory()) + 1<<20
 
 //@ func fdReaddirFn(ctx context.Context, mod api.Module, params []uint64) experimentalsys.Errno
 //@   requires wasiCall(mod, params, 5)
 //@   sweep
+//@   alloc-bound 64*memBytes(mod.Memory()) + 1<<20
 
 //@ func fdRenumberFn(ctx context.Context, mod api.Module, params []uint64) experimentalsys.Errno
 //@   requires wasiCall(mod, params, 2)
 //@   sweep
+//@   alloc-bound 64*memBytes(mod.Memory()) + 1<<20
 
 //@ func fdSeekFn(ctx context.Context, mod api.Module, params []uint64) experimentalsys.Errno
 //@   requires wasiCall(mod, params, 4)
 //@   sweep
+//@   alloc-bound 64*memBytes(mod.Memory()) + 1<<20
 
 //@ func fdSyncFn(ctx context.Context, mod api.Module, params []uint64) experimentalsys.Errno
 //@   requires wasiCall(mod, params, 1)
 //@   sweep
+//@   alloc-bound 64*memBytes(mod.Memory()) + 1<<20
 
 //@ func fdTellFn(ctx context.Context, mod api.Module, params []uint64) experimentalsys.Errno
 //@   requires wasiCall(mod, params, 2)
 //@   sweep
+//@   alloc-bound 64*memBytes(mod.Memory()) + 1<<20
 
 //@ func fdWriteFn(ctx context.Context, mod api.Module, params []uint64) experimentalsys.Errno
 //@   requires wasiCall(mod, params, 4)
 //@   sweep
+//@   alloc-bound 64*memBytes(mod.Memory()) + 1<<20
 
 //@ func pathCreateDirectoryFn(ctx context.Context, mod api.Module, params []uint64) experimentalsys.Errno
 //@   requires wasiCall(mod, params, 3)
 //@   sweep
+//@   alloc-bound 64*memBytes(mod.Memory()) + 1<<20
 
 //@ func pathFilestatGetFn(ctx context.Context, mod api.Module, params []uint64) experimentalsys.Errno
 //@   requires wasiCall(mod, params, 5)
 //@   sweep
+//@   alloc-bound 64*memBytes(mod.Memory()) + 1<<20
 
 //@ func pathFilestatSetTimesFn(ctx context.Context, mod api.Module, params []uint64) experimentalsys.Errno
 //@   requires wasiCall(mod, params, 7)
 //@   sweep
+//@   alloc-bound 64*memBytes(mod.Memory()) + 1<<20
 
 //@ func pathLinkFn(ctx context.Context, mod api.Module, params []uint64) experimentalsys.Errno
 //@   requires wasiCall(mod, params, 7)
 //@   sweep
+//@   alloc-bound 64*memBytes(mod.Memory()) + 1<<20
 
 //@ func pathOpenFn(ctx context.Context, mod api.Module, params []uint64) experimentalsys.Errno
 //@   requires wasiCall(mod, params, 9)
 //@   sweep
+//@   alloc-bound 64*memBytes(mod.Memory()) + 1<<20
 
 //@ func pathReadlinkFn(ctx context.Context, mod api.Module, params []uint64) experimentalsys.Errno
 //@   requires wasiCall(mod, params, 6)
 //@   sweep
+//@   alloc-bound 64*memBytes(mod.Memory()) + 1<<20
 
 //@ func pathRemoveDirectoryFn(ctx context.Context, mod api.Module, params []uint64) experimentalsys.Errno
 //@   requires wasiCall(mod, params, 3)
 //@   sweep
+//@   alloc-bound 64*memBytes(mod.Memory()) + 1<<20
 
 //@ func pathRenameFn(ctx context.Context, mod api.Module, params []uint64) experimentalsys.Errno
 //@   requires wasiCall(mod, params, 6)
 //@   sweep
+//@   alloc-bound 64*memBytes(mod.Memory()) + 1<<20
 
 //@ func pathSymlinkFn(ctx context.Context, mod api.Module, params []uint64) experimentalsys.Errno
 //@   requires wasiCall(mod, params, 5)
 //@   sweep
+//@   alloc-bound 64*memBytes(mod.Memory()) + 1<<20
 
 //@ func pathUnlinkFileFn(ctx context.Context, mod api.Module, params []uint64) experimentalsys.Errno
 //@   requires wasiCall(mod, params, 3)
 //@   sweep
+//@   alloc-bound 64*memBytes(mod.Memory()) + 1<<20
 
 //@ func pollOneoffFn(ctx context.Context, mod api.Module, params []uint64) experimentalsys.Errno
 //@   requires wasiCall(mod, params, 4)
 //@   sweep
+//@   alloc-bound 64*memBytes(mod.Memory()) + 1<<20
 //@   loop 0 (nsubscriptions uint32, i uint32, nevents uint32, inBuf []byte, outBuf []byte, blockingStdinSubs []*event)
 //@     invariant nsubscriptions <= 89478485 && i <= nsubscriptions
 //@     invariant len(inBuf) == int(nsubscriptions)*48 && len(outBuf) == int(nsubscriptions)*32
@@ -246,24 +284,30 @@ func wasiCall(mod api.Module, params []uint64, n int) bool {
 //@ func randomGetFn(ctx context.Context, mod api.Module, params []uint64) experimentalsys.Errno
 //@   requires wasiCall(mod, params, 2)
 //@   sweep
+//@   alloc-bound 64*memBytes(mod.Memory()) + 1<<20
 
 //@ func schedYieldFn(ctx context.Context, mod api.Module, params []uint64) experimentalsys.Errno
 //@   requires wasiCall(mod, params, 0)
 //@   sweep
+//@   alloc-bound 64*memBytes(mod.Memory()) + 1<<20
 
 //@ func sockAcceptFn(ctx context.Context, mod api.Module, params []uint64) experimentalsys.Errno
 //@   requires wasiCall(mod, params, 3)
 //@   sweep
+//@   alloc-bound 64*memBytes(mod.Memory()) + 1<<20
 
 //@ func sockRecvFn(ctx context.Context, mod api.Module, params []uint64) experimentalsys.Errno
 //@   requires wasiCall(mod, params, 6)
 //@   sweep
+//@   alloc-bound 64*memBytes(mod.Memory()) + 1<<20
 
 //@ func sockSendFn(ctx context.Context, mod api.Module, params []uint64) experimentalsys.Errno
 //@   requires wasiCall(mod, params, 5)
 //@   sweep
+//@   alloc-bound 64*memBytes(mod.Memory()) + 1<<20
 
 //@ func sockShutdownFn(ctx context.Context, mod api.Module, params []uint64) experimentalsys.Errno
 //@   requires wasiCall(mod, params, 2)
 //@   sweep
+//@   alloc-bound 64*memBytes(mod.Memory()) + 1<<20
 
